@@ -816,6 +816,36 @@ func checkFile(b []byte, eol string, encrypted bool) *checked {
 						os.err = "/First does not follow the prolog"
 					}
 				}
+				if os.err == "" {
+					// every stated offset is the start of exactly one object that ends where the next begins
+					ps2 := &parser{b: data[:first]}
+					var offs []int
+					for i := 0; i < n; i++ {
+						ps2.value()
+						v, _ := ps2.value()
+						offs = append(offs, v.(int))
+					}
+					for i := range offs {
+						end := len(data)
+						if i+1 < len(offs) {
+							end = first + offs[i+1]
+						}
+						po := &parser{b: data[first+offs[i] : end]}
+						if len(po.b) == 0 || isWS(po.b[0]) {
+							os.err = fmt.Sprintf("offset of object %d (index %d) does not point at an object", os.nrs[i], i)
+							break
+						}
+						if _, err := po.value(); err != nil {
+							os.err = fmt.Sprintf("object %d (index %d) does not parse at its offset", os.nrs[i], i)
+							break
+						}
+						po.skipWS()
+						if po.p != len(po.b) {
+							os.err = fmt.Sprintf("object %d (index %d) does not end where the next offset begins", os.nrs[i], i)
+							break
+						}
+					}
+				}
 			}
 		}
 		if os.err == "encrypted" {
